@@ -8,6 +8,7 @@ use rustc_middle::mir::{
     Place, ProjectionElem, Rvalue, StatementKind, TerminatorKind,
 };
 use rustc_middle::ty::print::with_no_trimmed_paths;
+use rustc_middle::ty::print::PrintTraitRefExt;
 use rustc_middle::ty::{self, GenericArgKind, GenericArgsRef, Ty, TyCtxt, TypingEnv};
 use rustc_span::Span;
 
@@ -485,6 +486,26 @@ impl<'tcx> Cx<'tcx> {
         o(v)
     }
 
+    /// `[param, trait path]` for every trait predicate on a type parameter of `d` (incl. parents).
+    fn bounds_j(&self, d: DefId) -> J {
+        let tcx = self.tcx;
+        let mut bounds = Vec::new();
+        let preds = tcx.predicates_of(d).instantiate_identity(tcx);
+        for clause in preds.predicates.iter() {
+            let clause = clause.skip_norm_wip();
+            if let Some(tp) = clause.as_trait_clause() {
+                let tp = tp.skip_binder();
+                let self_ty = tp.trait_ref.self_ty();
+                let tr = with_no_trimmed_paths!(format!("{}", tp.trait_ref.print_only_trait_path()));
+                bounds.push(J::Arr(vec![J::s(self.tys(self_ty)), J::s(tr)]));
+            } else if let Some(op) = clause.as_type_outlives_clause() {
+                let op = op.skip_binder();
+                bounds.push(J::Arr(vec![J::s(self.tys(op.0)), J::s(format!("{:?}", op.1))]));
+            }
+        }
+        J::Arr(bounds)
+    }
+
     fn generics_j(&self, d: DefId) -> J {
         let mut names = Vec::new();
         let g = self.tcx.generics_of(d);
@@ -638,6 +659,7 @@ impl<'tcx> Cx<'tcx> {
             ("generics", self.generics_j(d)),
             ("variants", J::Arr(variants)),
             ("reachable", J::Bool(tcx.effective_visibilities(()).is_reachable(ld))),
+            ("bounds", self.bounds_j(d)),
             ("file", J::s(self.file_name(tcx.def_span(d)))),
             ("walked", J::n(seen.len())),
         ];
@@ -723,6 +745,7 @@ impl<'tcx> Cx<'tcx> {
             ("id", J::s(self.did(d))),
             ("self_ty", J::n(self.ty_id(self_ty))),
             ("generics", self.generics_j(d)),
+            ("bounds", self.bounds_j(d)),
             ("file", J::s(self.file_name(tcx.def_span(d)))),
         ];
         v.extend(self.span_j(tcx.def_span(d)));
